@@ -52,9 +52,13 @@ def run(ctx):
                 "differing windows and n > window, dictionaries {none, short words, words longer than the bucket}, buckets, two "
                 "solvers, tokenized and partially annotated corpora; the learner's quantised output is read through the hooks and "
                 "Trace_Train recomputes every boundary score of every evaluation text as bias + sum of learned weights of the "
-                "trainer's features; non-trivial = (run, evaluation text) with at least two characters")
+                "trainer's features, and requires the learned function to be oriented as the annotation (some training boundary on the right "
+                "side of 0); corpora whose first example is a non-boundary (K1) and a boundary (K2); non-trivial = (run, evaluation text) with at least two characters")
     dicts = [([], 4), ([T.cps("a"), T.cps("aあ")], 2), ([T.cps("a"), T.cps("aあa"), T.cps("1a")], 1), ([T.cps("あ"), T.cps("a1a")], 4),
-             ([T.cps("a"), T.cps("あa"), T.cps("aあa")], 3)]
+             ([T.cps("a"), T.cps("あa"), T.cps("aあa")], 3),
+             # a repeated word: Trainer::new may refuse it (then there is nothing to judge); if a model is returned it must
+             # still compute the learned function
+             ([T.cps("a"), T.cps("aあ"), T.cps("a")], 2)]
     # evaluation sentences: every text up to the bound, as partially annotated lines whose label pattern varies
     # (fully annotated, unknown first / last / in the middle); judged on their annotated boundaries
     evals = []
@@ -79,12 +83,14 @@ def run(ctx):
             if ctx.quick and (ci + di) % 2 == 1:
                 continue
             for solver in ([1] if ctx.quick else [1, 5]):
-                for cname in (["K1", "K3"] if ctx.quick else ["K1", "K2", "K3"]):
-                    if ctx.quick and (ci + di + len(send)) % 2 == 1 and cname == "K3":
+                for cname in (["K1", "K2"] if ctx.quick else ["K1", "K2", "K3"]):
+                    if ctx.quick and (ci + di + len(send)) % 2 == 1 and cname == "K2":
                         continue
+                    # the training sentences themselves are evaluation sentences too (orientation of the learned function)
                     send.append({"id": len(send), "kind": "train", "cfg": {"cw": cw, "cn": cn, "tw": tw, "tn": tn, "dict": d, "dn": dn,
                                                                           "solver": solver, "eps": 0.01, "cost": 1.0},
-                                 "corpus": T.CORPORA[cname], "tagdict": [], "eval": evals, "corpus_name": cname})
+                                 "corpus": T.CORPORA[cname], "tagdict": [], "eval": evals + T.CORPORA[cname], "n_plain_evals": len(evals),
+                                 "corpus_name": cname})
     obs = vlib.run_replay(binp, send, "C09-train")
     events = []
     for d in send:
@@ -97,12 +103,12 @@ def run(ctx):
             ctx.add_part(skipped=key, reason=f"no model (train={o.get('train', o.get('abort'))})")
             continue
         evs = []
-        for x in o.get("eval", []):
+        for xi, x in enumerate(o.get("eval", [])):
             nt = x.get("notags")
             ok = isinstance(nt, dict)
             fok = isinstance(x.get("feats"), list)
             evs.append({"text": x["text"], "ok": ok, "scores": nt["scores"] if ok else [], "labels": x.get("labels", []),
-                        "feats_ok": fok, "feats": x["feats"] if fok else []})
+                        "feats_ok": fok, "feats": x["feats"] if fok else [], "is_train": xi >= d["n_plain_evals"]})
             ctx.evaluations += 1
             if len(x["text"]) >= 2:
                 ctx.nontriv((d["id"], tuple(x["text"])))
